@@ -64,8 +64,15 @@ THEOREMS = ["consts_documented", "sv_table_ok", "boot_sequence", "unswap_concat"
 RULE = ("STREAM histories: 1-6 boot() calls from freshly loaded struct_file/boot modules: hosts, ports (default, 0, 1, "
         "65535, random), delays (defaults, 0, 0.0, given), keyword and positional convention, file names as str / "
         "bytes / pathlib, through boot.boot or MachineController.boot (plain / subclass / structs= given / deprecated "
-        "width,height), images = bundled scamp.boot or random bytes (every block count 1..32 in the thorough tier, "
-        "block edges, out-of-domain short / unaligned / oversize), struct file = bundled sark.struct or a synthetic "
+        "width,height), images = bundled scamp.boot, random bytes, or (about half) STRUCTURED content built block by "
+        "block from content classes - whole-block byte palindromes (full and short final block), word palindromes "
+        "(blocks equal to their own swap), periodic with periods 1,2,3,4,8, repeated halves, all-0x00 / all-0xFF, "
+        "equal to / the word swap of the previous block, zero head / zero tail - under image templates (mixed, blank "
+        "first / middle / LAST block(s), all blocks equal, all zero, all 0xFF, all palindromes, palindromic last "
+        "block, one class throughout); every block count 1..32 with random AND structured content in the thorough "
+        "tier, block edges, out-of-domain short / unaligned / oversize; the widened search after a broken "
+        "obligation draws from the same classes; evidence counts templates and per-block classes "
+        "(content_template_*, content_block_*, content_last_block_*); struct file = bundled sark.struct or a synthetic "
         "layout (well-formed, overlapping, overflowing, unpackable; bases and other structs differ), options = none "
         "/ board preset / any field via keywords, via a fresh sv_overrides mapping (dict, OrderedDict, defaultdict, "
         "dict subclass), via a caller mapping reused across calls, via both incl. the same variable in both; values "
@@ -118,14 +125,108 @@ def image_bytes(spec):
     if spec["kind"] == "default":
         default_table()
         return _cache["image"]
-    b = random.Random(spec["seed"]).randbytes(spec["len"])
+    if spec["kind"] == "blocks":
+        b = structured_image(spec)
+    else:
+        b = random.Random(spec["seed"]).randbytes(spec["len"])
     if spec.get("flip") is not None and b:           # a twin image: one byte differs
         i = spec["flip"] % len(b)
         b = b[:i] + bytes([b[i] ^ 0x5a]) + b[i + 1:]
     return b
 
 
+BLOCK_CLASSES = ["random", "palindrome", "word_palindrome", "period1", "period2", "period3", "period4", "period8",
+                 "repeat_half", "zero", "ff", "same_as_prev", "swap_of_prev", "zero_tail", "zero_head"]
+IMAGE_TEMPLATES = ["mixed", "mixed", "mixed", "blank_last", "blank_last2", "blank_first", "blank_middle",
+                   "all_equal", "all_zero", "all_ff", "all_palindrome", "last_palindrome", "uniform_class"]
+
+
+def block_bytes(cls, n, rnd, prev):
+    """one block of n bytes (n may be short / not a word multiple for out-of-domain images) of a content class"""
+    if cls == "palindrome":                    # reads the same from both ends as a WHOLE (words are not symmetric)
+        h = rnd.randbytes((n + 1) // 2)
+        return (h + h[::-1][n % 2:])[:n]
+    if cls == "word_palindrome":               # every word equals its own byte swap
+        out = b"".join((lambda w: w + w[::-1])(rnd.randbytes(2)) for _ in range(n // 4 + 1))
+        return out[:n]
+    if cls.startswith("period"):
+        p = rnd.randbytes(int(cls[6:]))
+        return (p * (n // len(p) + 1))[:n]
+    if cls == "repeat_half":
+        h = rnd.randbytes((n + 1) // 2)
+        return (h + h)[:n]
+    if cls == "zero":
+        return bytes(n)
+    if cls == "ff":
+        return b"\xff" * n
+    if cls == "same_as_prev" and prev:
+        return (prev * 2)[:n]
+    if cls == "swap_of_prev" and prev:
+        sw = b"".join(prev[i:i + 4][::-1] for i in range(0, len(prev), 4))
+        return (sw * 2)[:n]
+    if cls == "zero_tail":                     # code followed by zero words inside the block
+        k = rnd.randrange(0, n + 1)
+        return rnd.randbytes(k) + bytes(n - k)
+    if cls == "zero_head":
+        k = rnd.randrange(0, n + 1)
+        return bytes(k) + rnd.randbytes(n - k)
+    return rnd.randbytes(n)
+
+
+def structured_image(spec):
+    rnd = random.Random(spec["seed"])
+    out, prev = [], b""
+    n = spec["len"]
+    for i, cls in enumerate(spec["classes"]):
+        ln = min(1024, n - 1024 * i)
+        prev = block_bytes(cls, ln, rnd, prev)
+        out.append(prev)
+    return b"".join(out)
+
+
+def gen_block_classes(rng, n):
+    """content classes of the ceil(n/1024) blocks of a structured image (by template)"""
+    k = max(1, (n + 1023) // 1024)
+    t = rng.choice(IMAGE_TEMPLATES)
+    cl = [rng.choice(BLOCK_CLASSES) for _ in range(k)]
+    if t == "blank_last":
+        cl[-1] = "zero"
+    elif t == "blank_last2":
+        for i in range(max(0, k - rng.choice([2, 3])), k):
+            cl[i] = "zero"
+    elif t == "blank_first":
+        cl[0] = "zero"
+    elif t == "blank_middle" and k >= 3:
+        cl[rng.randrange(1, k - 1)] = rng.choice(["zero", "ff"])
+    elif t == "all_equal":
+        cl = [rng.choice(["random", "palindrome", "period3"])] + ["same_as_prev"] * (k - 1)
+    elif t == "all_zero":
+        cl = ["zero"] * k
+    elif t == "all_ff":
+        cl = ["ff"] * k
+    elif t == "all_palindrome":
+        cl = ["palindrome"] * k
+    elif t == "last_palindrome":
+        cl[-1] = "palindrome"
+    elif t == "uniform_class":
+        cl = [rng.choice(BLOCK_CLASSES)] * k
+    return t, cl
+
+
+def structured(rng, n):
+    t, cl = gen_block_classes(rng, n)
+    return {"kind": "blocks", "len": n, "seed": rng.randrange(2 ** 30), "template": t, "classes": cl}
+
+
 def gen_image(rng, force_len=None):
+    img = gen_image_plain(rng, force_len)
+    # image CONTENT is a generator dimension of its own: about half of the generated images are structured
+    if img["kind"] == "rand" and rng.random() < 0.5:
+        return structured(rng, img["len"])
+    return img
+
+
+def gen_image_plain(rng, force_len=None):
     if force_len is not None:
         return {"kind": "rand", "len": force_len, "seed": rng.randrange(2 ** 30)}
     r = rng.random()
@@ -921,6 +1022,10 @@ def evaluate(ctx, cases):
             ctx.traces += 1
             res = o["result"]
             kind = "ok" if "ok" in res else res["err"].split(":")[0]
+            if c["image"]["kind"] == "blocks":
+                r["tags"] += ["content_template_" + c["image"].get("template", "given")]
+                r["tags"] += ["content_block_" + x for x in c["image"]["classes"]]
+                r["tags"] += ["content_last_block_" + c["image"]["classes"][-1]]
             r["tags"] += ["result_" + kind, "via_" + c["via"], "image_" + c["image"]["kind"],
                           "table_" + ("default" if c["table"] is None else "synthetic"),
                           "opts_" + ("none" if not c["kwargs"] and c["sv"] is None else
@@ -1206,7 +1311,16 @@ def fixed_cases():
     z1 = dict(base, host="a", kwargs=[["soft_wdog", 0], ["led0", 0], ["cpu_clk", 0]])
     z2 = dict(base, host="b", sv=0)
     z3 = dict(base, host="c", sv=1, kwargs=[["link_en", 0], ["num_buf", False]])
-    return [{"store": [], "calls": [a, b]}, {"store": [[["led1", 9]]], "calls": [c, d]},
+    # image content: code followed by blank blocks (full and short), whole-block palindromes (full and short final
+    # block), equal blocks, an all-zero image
+    def blk(n, classes):
+        return {"kind": "blocks", "len": n, "seed": 11, "template": "given", "classes": classes}
+    contents = [blk(3584, ["random", "random", "zero", "zero"]), blk(4096, ["random", "palindrome", "palindrome", "zero"]),
+                blk(2560, ["random", "period3", "palindrome"]), blk(3072, ["random", "same_as_prev", "swap_of_prev"]),
+                blk(2048, ["zero", "zero"]), blk(1536, ["ff", "ff"]), blk(2052, ["word_palindrome", "palindrome", "zero"])]
+    content_cases = [{"store": [], "calls": [dict(base, host="a", image=im, kwargs=[["hw_ver", 2]]), dict(base, host="b", image=im)]}
+                     for im in contents]
+    return content_cases + [{"store": [], "calls": [a, b]}, {"store": [[["led1", 9]]], "calls": [c, d]},
             {"store": [], "calls": [dict(base, host="a", image={"kind": "default"}, via="function")]},
             {"store": [], "calls": [e, f]}, {"store": [], "calls": [g, e, h, f]},
             {"store": [[["soft_wdog", 0], ["boot_delay", 0], ["led0", False]], [["link_en", 63], ["iobuf_size", 0]]],
@@ -1329,8 +1443,9 @@ def packet_stream(ctx, n):
         args = [rng.choice([0, 1, 255, (255 << 8) | rng.randrange(256), 2 ** 31, 2 ** 32 - 1, rng.randrange(2 ** 32)] +
                            ([rng.choice([-1] + BIG[3:])] if rng.random() < 0.06 else [])) for _ in range(3)]
         ln = rng.choice([0, 0, 4, 8, 1024, 1028, 4 * rng.randrange(300), rng.randrange(1, 40)])
-        data = rng.randbytes(ln)
-        case = {"cmd": cmd, "args": args, "data": data.hex(), "cmd_kind": rng.choice(["int", "enum", "np"]),
+        data_cls = rng.choice(["random", "random"] + BLOCK_CLASSES)
+        data = block_bytes(data_cls, ln, random.Random(rng.randrange(2 ** 30)), rng.randbytes(ln))
+        case = {"cmd": cmd, "args": args, "data": data.hex(), "content": data_cls, "cmd_kind": rng.choice(["int", "enum", "np"]),
                 "data_kind": rng.choice(["bytes", "bytes", "bytearray", "memoryview"]),
                 "style": rng.choice(["positional", "positional", "keyword", "keyword", "defaults"])}
         if case["style"] == "defaults":
@@ -1375,6 +1490,7 @@ def packet_eval(ctx, cases):
     for case, o, m in zip(cases, impl, reps):
         ctx.traces += 1
         ctx.tag("packet_" + ("ok" if "ok" in o else o["err"].split(":")[0]), "packet_data_" + case["data_kind"],
+                "packet_content_" + case.get("content", "random"),
                 "packet_cmd_" + case["cmd_kind"], "packet_style_" + case["style"])
         o = {k: v for k, v in o.items() if k != "detail"}
         if o != m:
@@ -1408,6 +1524,9 @@ def run(ctx):
                 ln = 1024 * k + d
                 if 512 <= ln < 32768:
                     cases.append(gen_history(rng, force_len=ln))
+                    h = gen_history(rng, force_len=ln)          # the same block count with structured content
+                    h["calls"][0]["image"] = structured(rng, ln)
+                    cases.append(h)
     for _ in range(n):
         cases.append(gen_history(rng))
     for _ in range(ctx.scale(30, 300) * (4 if ctx.extended else 1)):
